@@ -91,6 +91,18 @@ def check_rep(ctx: Ctx, c: Dict[str, Any]) -> None:
             raise
         except Exception as ex:
             bad("FlowFields.sample", f"raised {type(ex).__name__}: {ex}", exc=type(ex).__name__, frm=a)
+        # resampling onto a grid of the SAME domain but another size (normalised vectors depend on the size)
+        try:
+            g_res = g.resize(tuple(m + 2 for m in g.size()))
+            fs = f.sample(g_res)
+            wv32 = torch.tensor([reps["world"]], dtype=torch.float32)
+            exp_c = g_res.transform_vectors(wv32, axes=Axes.WORLD, to_axes=Axes(a))[0]
+            nn = tuple(s // 2 for s in g_res.shape)
+            got = fs.tensor()[(0, slice(None)) + nn]
+            if max_err(got, exp_c) > TOL * scale or fs.axes() is not Axes(a):
+                bad("FlowFields.sample[same domain]", f"field in {a} axes resampled on a finer grid of the same domain has components {got.tolist()}, expected {exp_c.tolist()}", frm=a)
+        except Exception as ex:
+            bad("FlowFields.sample[same domain]", f"raised {type(ex).__name__}: {ex}", exc=type(ex).__name__, frm=a)
         # warping a world-linear ramp image: out(x) = ramp(x + w), the same for every representation
         try:
             aa = torch.tensor([0.7, -1.3, 0.4][:D], dtype=torch.float64)
@@ -116,6 +128,27 @@ def check_rep(ctx: Ctx, c: Dict[str, Any]) -> None:
                     bad("FlowFields.axes[per-field grids]", f"world -> {b} wrong for a batch with different grids", to=b)
     except Exception as ex:
         bad("FlowFields.axes[per-field grids]", f"raised {ex}", exc=type(ex).__name__)
+    # batch whose fields live on grids that differ only in orientation: every field is converted with ITS grid
+    try:
+        import math
+
+        D_ = g.ndim
+        a_ = math.radians(40)
+        Rz = [[math.cos(a_), -math.sin(a_)], [math.sin(a_), math.cos(a_)]] if D_ == 2 else [[math.cos(a_), -math.sin(a_), 0], [math.sin(a_), math.cos(a_), 0], [0, 0, 1]]
+        g_rot = g.direction(torch.tensor(Rz, dtype=torch.float32) @ g.direction())
+        wv32 = torch.tensor([reps["world"]], dtype=torch.float32)
+        fb = FlowFields(torch.cat([const_field(g, reps["world"]), const_field(g_rot, reps["world"])]), [g, g_rot], Axes.WORLD)
+        for b in AXES:
+            cc = comps_of(fb.axes(Axes(b)).tensor())
+            e0 = g.transform_vectors(wv32, axes=Axes.WORLD, to_axes=Axes(b))[0]
+            e1 = g_rot.transform_vectors(wv32, axes=Axes.WORLD, to_axes=Axes(b))[0]
+            if cc is None or max_err(cc[0], e0) > TOL * scale or max_err(cc[1], e1) > TOL * scale:
+                bad("FlowFields.axes[per-field grids]", f"world -> {b}: fields of a batch are not converted with their own grids", to=b)
+            back = comps_of(fb.axes(Axes(b)).axes(Axes.WORLD).tensor())
+            if back is None or max_err(back[1], wv32[0]) > TOL * scale:
+                bad("FlowFields.axes[per-field grids]", f"world -> {b} -> world round trip fails for the second field", to=b, what="roundtrip")
+    except Exception as ex:
+        bad("FlowFields.axes[per-field grids]", f"raised {type(ex).__name__}: {ex}", exc=type(ex).__name__)
     # normalize_flow / denormalize_flow: the grid <-> cube special case
     for acf, key in ((True, "cube_corners"), (False, "cube")):
         v = const_field(g, reps["grid"])
